@@ -21,10 +21,10 @@ Theorem C16_index_range : forall A R i sizes (body : list bytes -> result A),
 Proof. exact @run_op_next. Qed.
 
 (* freshness over histories: the blocks of two different operations of ANY history are served at different
-   indices; under a source that never repeats a block they differ *)
+   indices; under a source that does not repeat a block among its first [hi] calls they differ *)
 Theorem C16_fresh_across_history :
-  forall A R i (ops : list (list nat * (list bytes -> result A))) p q sp bp sq bq dp dq a c,
-  fresh R -> p < q ->
+  forall A R hi i (ops : list (list nat * (list bytes -> result A))) p q sp bp sq bq dp dq a c,
+  fresh_below R hi -> start_of R i ops q + c < hi -> p < q ->
   nth_error ops p = Some (sp, bp) -> nth_error ops q = Some (sq, bq) ->
   draw_all R (start_of R i ops p) sp = Some dp -> draw_all R (start_of R i ops q) sq = Some dq ->
   a < length sp -> c < length sq -> nth a dp [] <> [] ->
@@ -38,9 +38,13 @@ Theorem C16_disjoint_indices_across_history :
   draw_all R (start_of R i ops p) sp = Some dp -> a < length sp ->
   start_of R i ops p + a < start_of R i ops q + c.
 Proof. exact @distinct_ops_distinct_indices. Qed.
-(* ... and the premise [fresh R] has a model *)
-Theorem C16_fresh_satisfiable : exists R, fresh R.
-Proof. exists counter_rng. exact counter_rng_fresh. Qed.
+(* ... and the premise has a model that never fails and serves blocks of exactly the requested length (which no
+   source fresh on ALL of nat can: 257 one-byte blocks) *)
+Theorem C16_fresh_satisfiable : exists R, fresh_below R 256 /\ (forall i n, exists x, R i n = Some x /\ length x = n).
+Proof.
+  exists le_counter_rng. split; [exact le_counter_rng_fresh_below|].
+  intros i n. eexists; split; [reflexivity|apply le_bytes_length].
+Qed.
 
 (* the nonce / salt fields of the outputs ARE the drawn blocks *)
 Theorem C16_local_nonce_is_draw : forall (P : lparams) key enc n0 m f a p,
@@ -57,6 +61,44 @@ Theorem C16_pbkw_salt_nonce_are_draws : forall (P : pw_params) header pass param
   take (pw_salt_len P) blob = salt /\ take (pw_nonce_len P) (drop (pw_salt_len P + pw_par_len P) blob) = nonce.
 Proof. exact pbkw_salt_nonce_are_draws. Qed.
 
+(* ---- the modelled operations composed with their draws (sizes as in [op_draws]): the whole operation fails
+        closed, its random fields are the blocks served at its own call indices, and two consecutive seals — of
+        the same message under the same key included — carry different nonces ---- *)
+Theorem C16_local_seal_op_fail_closed : forall (P : lparams) R i key enc m f a,
+  R i 32 = None -> local_seal_op P R i key enc m f a = (Err CryptoError, S i).
+Proof. exact local_seal_op_fail_closed. Qed.
+Theorem C16_local_seal_op_embeds : forall (P : lparams) R i key enc m f a n0 p j,
+  R i 32 = Some n0 -> length n0 = 32 -> lp_synth P = (fun n _ => n) ->
+  local_seal_op P R i key enc m f a = (Ok p, j) -> take 32 p = n0 /\ j = S i.
+Proof. exact local_seal_op_embeds. Qed.
+Theorem C16_consecutive_seals_have_different_nonces :
+  forall (P : lparams) R hi i key enc m f a key' enc' m' f' a' p1 p2 j k,
+  fresh_below R hi -> S i < hi -> lp_synth P = (fun n _ => n) ->
+  (forall x, R i 32 = Some x -> length x = 32) -> (forall x, R (S i) 32 = Some x -> length x = 32) ->
+  local_seal_op P R i key enc m f a = (Ok p1, j) ->
+  local_seal_op P R j key' enc' m' f' a' = (Ok p2, k) ->
+  take 32 p1 <> take 32 p2.
+Proof. exact consecutive_local_seals_have_different_nonces. Qed.
+Theorem C16_pie_wrap_op_fail_closed : forall (P : pie_params) R i header wk key,
+  R i 32 = None -> pie_wrap_op P R i header wk key = (Err CryptoError, S i).
+Proof. exact pie_wrap_op_fail_closed. Qed.
+Theorem C16_pbkw_wrap_op_fail_closed : forall (P : pw_params) R i header pass params key,
+  R i (pw_salt_len P) = None \/ (exists s, R i (pw_salt_len P) = Some s /\ R (S i) (pw_nonce_len P) = None) ->
+  fst (pw_wrap_op P R i header pass params key) = Err CryptoError.
+Proof. exact pw_wrap_op_fail_closed. Qed.
+Theorem C16_pbkw_wrap_op_embeds : forall (P : pw_params) R i header pass params key s n blob j,
+  R i (pw_salt_len P) = Some s -> R (S i) (pw_nonce_len P) = Some n ->
+  length s = pw_salt_len P -> length n = pw_nonce_len P -> length params = pw_par_len P ->
+  pw_wrap_op P R i header pass params key = (Ok blob, j) ->
+  take (pw_salt_len P) blob = s /\ take (pw_nonce_len P) (drop (pw_salt_len P + pw_par_len P) blob) = n /\ j = S (S i).
+Proof. exact pw_wrap_op_embeds. Qed.
+
+Print Assumptions C16_local_seal_op_fail_closed.
+Print Assumptions C16_local_seal_op_embeds.
+Print Assumptions C16_consecutive_seals_have_different_nonces.
+Print Assumptions C16_pie_wrap_op_fail_closed.
+Print Assumptions C16_pbkw_wrap_op_fail_closed.
+Print Assumptions C16_pbkw_wrap_op_embeds.
 Print Assumptions C16_fail_closed.
 Print Assumptions C16_uses_exactly_its_draws.
 Print Assumptions C16_index_range.
